@@ -61,7 +61,7 @@ def fixed_cases(tier):
 
 
 def examples(tier):
-    return 9000 if tier == "quick" else 60000
+    return 9000 if tier == "quick" else 110000
 
 
 def wall_budget(tier):
